@@ -35,4 +35,12 @@ Terminates == <>done
 \* the loop refines the cursor abstraction whose termination Apalache proves for ALL sizes (LoopTermination.tla)
 Abs == INSTANCE LoopTermination WITH Guard <- TRUE, idx <- ii, mi <- mi, nrows <- Len(Imu), nmeas <- Len(Mts) - 1, fin <- done
 RefinesAbstraction == Abs!ASpec
+
+\* ... and the counting abstraction whose exactly-once invariants Apalache proves for ALL sizes (ExactlyOnce.tla)
+InSpanEpochs == {k \in 1..(Len(Mts) - 1) : Mts[k] < End}
+MIn == Cardinality(InSpanEpochs)
+Behind == Cardinality({k \in InSpanEpochs : Mts[k] < T})
+DueCnt == IF ii < Len(Imu) THEN Cardinality({k \in InSpanEpochs : Mts[k] < Imu[ii + 1]}) ELSE MIn
+Once == INSTANCE ExactlyOnce WITH Inner <- ~Shipped, i <- ii, mi <- mi, n <- Len(Imu), m <- MIn, b <- Behind, d <- DueCnt, fin <- done
+RefinesExactlyOnce == Once!ESpec
 =============================================================================
